@@ -32,9 +32,13 @@ CLAIMED["C04"] = (
     "occupancy_at_time / state_at_time of every obstacle role (static, dynamic with trajectory, set-based or no prediction, "
     "phantom, environment) and occupancy_shape_from_state run symbolically with the initial time step, the query time and all "
     "poses as solver variables; z3 proves the time pairing, None exactly outside the horizon, and that the occupancy is the "
-    "shape placed at the state (point-mass heading = atan2(vy,vx)).",
+    "shape placed at the state (point-mass heading = atan2(vy,vx)). Uncertain states: for headings / region orientations / "
+    "interval half-widths from finite sets and symbolic sizes and coordinates z3 proves (linear arithmetic over bounding-box "
+    "If-chains) that the returned rectangle contains every corner of every extreme placement. Scenario-level queries "
+    "(occupancies / states at a time step, role / type filters, position intervals) are proved equal to what the per-obstacle "
+    "answers imply on a scenario with one obstacle of every role.",
     "trajectories of <= 3 states; obstacle shapes given in the obstacle frame (centred); floats as reals; trig axiomatised; "
-    "enclosure for uncertain states and scenario-level queries: see evidence clauses_outside_claim", "2/C04")
+    "uncertain orientations at sampled and corner-alignment angles only", "2/C04")
 CLAIMED["C08"] = (
     "GoalRegion.is_reached / PlanningProblem.goal_reached run symbolically against an independently written specification "
     "(time interval, position in rectangle / circle / polygon / shape group / lanelet polygons, angle interval modulo 2pi, "
